@@ -84,9 +84,21 @@ func (st *c09Stream) scope() string {
 }
 
 // drain consumes everything available without blocking.
+// c09CallBegin / c09CallEnd bracket the non-blocking stream calls of the
+// sequential histories with the per-call watchdog (a TryNext that spins
+// forever inside the library is a stall).
+var c09CallBegin = func(func() string) {}
+var c09CallEnd = func() {}
+
+func (st *c09Stream) tryNext(ctx context.Context) bool {
+	c09CallBegin(func() string { return "TryNext on stream " + st.scope() })
+	defer c09CallEnd()
+	return st.s.TryNext(ctx)
+}
+
 func (st *c09Stream) drain(ctx context.Context) {
 	for !st.done {
-		if !st.s.TryNext(ctx) {
+		if !st.tryNext(ctx) {
 			if err := st.s.Err(); err != nil {
 				st.err = err
 				st.done = true
@@ -195,6 +207,7 @@ func c09LongTransaction(c *fw.Ctx) {
 }
 
 func runC09(c *fw.Ctx) {
+	c09CallBegin, c09CallEnd = c.HangWatch(60*time.Second, "stream:call-hangs")
 	c09Concurrent(c)
 	c09Retention(c)
 	c09LongTransaction(c)
